@@ -57,6 +57,8 @@ def lexer(raw: str) -> _LEX_STREAM:
     start: int = 0
     is_string: bool = False
     for i, s in enumerate(raw):
+        if is_string and s != '"':
+            continue  # inside a string literal only the closing quote delimits
         if s.isspace() or s in {')', '(', ',', '=', '"'}:
             val = raw[start:i]
             start = i + 1
